@@ -143,6 +143,26 @@ func InjectAll(f *File, maxPerFault int) []Injected {
 			out = append(out, Injected{"first-line-not-indented", strings.Join(mod, "\n"), "first line of a template", i + 1})
 		}
 	}
+	// unterminated template body, at every line: the file ends after any line of a template body
+	// (these are also the states a buffer passes through while the template is being typed)
+	inBody := false
+	for i, l := range lines {
+		if strings.HasPrefix(l, "@goht ") {
+			inBody = true
+			continue
+		}
+		if l == "}" {
+			inBody = false
+			continue
+		}
+		if inBody {
+			if maxPerFault > 0 && i%3 != 0 {
+				continue
+			}
+			out = append(out, Injected{"unterminated-template-body", strings.Join(lines[:i+1], "\n") + "\n", "file ends inside a template body", i})
+			out = append(out, Injected{"unterminated-template-body", strings.Join(lines[:i+1], "\n"), "file ends inside a template body, no final newline", i})
+		}
+	}
 	// unterminated template body: drop the closing brace of the last template (and everything after it)
 	last := -1
 	for i, l := range lines {
